@@ -32,7 +32,7 @@ ASSUMPTIONS = [
     "two spellings of one file are compared as the same file (normalised path); the listing must be sorted as printed and free of duplicates",
     "files are tiny clean documents, so scan/fix order is observed through the order in which the documents are opened",
 ]
-PROBES = ["model_error_missing", "model_error_ineligible", "model_error_glob", "model_empty_selection", "dup_spellings", "recurse", "alt_ext", "glob_arg", "dir_named_like_file", "api_list_path", "cmd:scan", "cmd:fix", "cmd:list"]
+PROBES = ["trees_with_symlinks", "model_error_missing", "model_error_ineligible", "model_error_glob", "model_empty_selection", "dup_spellings", "recurse", "alt_ext", "glob_arg", "dir_named_like_file", "api_list_path", "cmd:scan", "cmd:fix", "cmd:list"]
 
 DOC = b"# T\n"
 FILE_NAMES = ["a.md", "b.md", "c.md", "B.MD", "notes.txt", "x.markdown", "README", "a[1].md", "q?.md", "qa.md", "s*r.md", "star.md", ".hidden.md", "z.md.bak", "md"]
@@ -54,6 +54,24 @@ def gen_tree(rng):
         if path not in dirs:
             files.add(path)
     return sorted(files), sorted(dirs)
+
+
+def gen_symlinks(rng, files, dirs):
+    """name -> target (relative to the tree root).  Dangling links and links to regular
+    files, placed in directories (never used as arguments themselves)."""
+    links = {}
+    places = [""] + sorted(dirs)
+    for _ in range(rng.choice([0, 0, 0, 1, 2])):
+        place = rng.choice(places)
+        name = rng.choice(["dangling.md", "gone.md", ".#lock.md", "alias.md", "alias.txt"])
+        path = (place + "/" + name) if place else name
+        if path in files or path in dirs:
+            continue
+        if name.startswith("alias") and files:
+            links[path] = rng.choice(files)
+        else:
+            links[path] = "no/such/target.md"
+    return links
 
 
 def gen_args(rng, files, dirs):
@@ -89,6 +107,7 @@ def gen_args(rng, files, dirs):
 def generate(rng, tier, index):
     files, dirs = gen_tree(rng)
     args = gen_args(rng, files, dirs)
+    symlinks = gen_symlinks(rng, files, dirs)
     recurse = rng.random() < 0.4
     alt = rng.choice([None, None, None, ".txt", ".md,.txt", ".markdown", ".MD", ".bak"])
     command = rng.choice(["list", "list", "scan", "fix", "api-list"])
@@ -98,6 +117,7 @@ def generate(rng, tier, index):
         "world": workload.draw_world(rng),
         "tree_files": files,
         "tree_dirs": dirs,
+        "symlinks": symlinks,
         "args": args,
         "recurse": recurse,
         "alt": alt,
@@ -111,7 +131,12 @@ def generate(rng, tier, index):
 
 
 class Model:
-    def __init__(self, files, dirs, alt):
+    def __init__(self, files, dirs, alt, symlinks=None):
+        # a link to a regular file is a file under its own name; a dangling link is
+        # listed by the directory walk but is not a file, so it is never eligible
+        live = [name for name, target in (symlinks or {}).items() if target in set(files)]
+        self.dangling = set(name for name in (symlinks or {}) if name not in live)
+        files = list(files) + live
         self.files = set(files)
         self.dirs = set(dirs) | {""}
         self.exts = [e for e in (alt.lower() if alt else ".md").split(",")]
@@ -162,7 +187,8 @@ class Model:
     def children(self, directory):
         prefix = directory + "/" if directory else ""
         names_files, names_dirs = [], []
-        for f in self.files:
+        for f in sorted(self.files | self.dangling):
+            # (a dangling link is an entry of its directory: listings and globs see it)
             if f.startswith(prefix) and "/" not in f[len(prefix) :]:
                 names_files.append(f[len(prefix) :])
         for d in self.dirs:
@@ -180,6 +206,8 @@ class Model:
             names_files, names_dirs = self.children(directory)
             for name in names_files:
                 real = (directory + "/" + name) if directory else name
+                if real in self.dangling:
+                    continue  # not a file
                 if any(name.endswith(ext) for ext in self.exts):
                     out.add(real)
             if recurse:
@@ -223,7 +251,7 @@ class Model:
             results = new
         out = []
         for spelled, real in results:
-            if real in self.dirs or real in self.files:
+            if real in self.dirs or real in self.files or real in self.dangling:
                 out.append(("<W>/" if absolute else "") + spelled + ("/" if trailing else ""))
         return out
 
@@ -313,7 +341,10 @@ def _request(sc, args):
         if sc["alt"]:
             kwargs["alternate_extensions"] = sc["alt"]
         op = {"kind": "api", "new": True, "call": ["list_path", [args[0]], kwargs]}
-    return {"files": files, "dirs": sc["tree_dirs"], "world": sc["world"], "cpu": 30, "ops": [op]}
+    request = {"files": files, "dirs": sc["tree_dirs"], "world": sc["world"], "cpu": 30, "ops": [op]}
+    if sc.get("symlinks"):
+        request["symlinks"] = sc["symlinks"]
+    return request
 
 
 def _observe(sc, reply):
@@ -343,7 +374,9 @@ def evaluate(sc):
 
     stats = collections.Counter()
     out = []
-    model = Model(sc["tree_files"], sc["tree_dirs"], sc["alt"])
+    model = Model(sc["tree_files"], sc["tree_dirs"], sc["alt"], sc.get("symlinks"))
+    if sc.get("symlinks"):
+        stats["trees_with_symlinks"] += 1
     args = list(sc["args"])
     if sc["command"] == "api-list":
         args = args[:1]
@@ -455,6 +488,10 @@ def reductions(sc):
             continue
         candidate = copy.deepcopy(sc)
         candidate["tree_dirs"].remove(name)
+        yield candidate
+    for name in sorted(sc.get("symlinks") or {}):
+        candidate = copy.deepcopy(sc)
+        del candidate["symlinks"][name]
         yield candidate
     for field, neutral in (("recurse", False), ("alt", None), ("scheme", "default")):
         if sc[field] != neutral:
